@@ -994,7 +994,7 @@ class StoreGen:
                 self.views.append(dict(t=ct, v=cv, hook=(i, key), kids=False,
                                        sel=int(self.views[i]['v'][1]) if kind(self.views[i]['t']) == 'union' else None))
                 kt = kind(self.views[i]['t'])
-                ops.append(r.choice(['childs', 'childi', 'childn']) if kt in ('vec', 'list') and r.random() < 0.55 else
+                ops.append(r.choice(['childs', 'childi', 'childn', 'childr']) if kt in ('vec', 'list') and r.random() < 0.6 else
                            'childn' if kt == 'cont' and r.random() < 0.25 else 'child')
                 ops[-1] = [ops[-1], i, key]
             elif c < 0.30 and len(self.views) >= 2:
